@@ -32,6 +32,12 @@ var Base = []string{
 	"SELECT a FROM t LEFT JOIN u ON t.a = u.a WHERE u.b LIKE 'x%'",
 	"SELECT DISTINCT a FROM t ORDER BY a",
 	"SELECT 1",
+	// statements whose first word is not one the recovery loop resynchronises on
+	"SHOW TABLES",
+	"DESCRIBE t",
+	"SHOW COLUMNS FROM t",
+	"REPLACE INTO t (a) VALUES (1)",
+	"EXPLAIN t",
 }
 
 var startKeywords = map[string]bool{"SELECT": true, "INSERT": true, "UPDATE": true, "DELETE": true, "CREATE": true, "ALTER": true,
@@ -45,6 +51,8 @@ type Stmt struct {
 	Tree   string // projection of the single statement's tree when Good
 	Origin string // base statement and corruption that produced it
 	NTok   int
+	// KwStart: the first token is a keyword the recovery loop resynchronises on
+	KwStart bool
 }
 
 // Lexemes splits a single-line ASCII statement into its lexemes using the real tokenizer's spans.
@@ -81,10 +89,10 @@ func classify(sql, origin string) (Stmt, bool) {
 			return Stmt{}, false // violates the side condition
 		}
 	}
-	if !startKeywords[strings.ToUpper(lex[0])] {
+	if lex[0] == ";" {
 		return Stmt{}, false
 	}
-	st := Stmt{SQL: sql, Origin: origin, NTok: len(lex)}
+	st := Stmt{SQL: sql, Origin: origin, NTok: len(lex), KwStart: startKeywords[strings.ToUpper(lex[0])]}
 	tree, err := gosqlx.Parse(sql)
 	if err == nil && len(tree.Statements) == 1 {
 		st.Good = true
@@ -94,8 +102,31 @@ func classify(sql, origin string) (Stmt, bool) {
 		ast.ReleaseAST(tree)
 		return Stmt{}, false // parses as several statements: not a single segment
 	}
+	// A usable segment means the same thing whether or not a separator follows it: strict parsing of
+	// "seg", "seg;" and "seg; SELECT 1" must agree on it. (Some dialect statements take the semicolon as
+	// an operand - "SHOW;" - which is a grammar defect, not a property of the statement loop.)
+	t2, err2 := gosqlx.Parse(sql + ";")
+	t3, err3 := gosqlx.Parse(sql + ";\nSELECT 1")
+	ok := (err2 == nil) == st.Good && (err3 == nil) == st.Good
+	if ok && st.Good {
+		ok = len(t2.Statements) == 1 && project.String(t2.Statements[0]) == st.Tree &&
+			len(t3.Statements) == 2 && project.String(t3.Statements[0]) == st.Tree
+	}
+	if t2 != nil {
+		ast.ReleaseAST(t2)
+	}
+	if t3 != nil {
+		ast.ReleaseAST(t3)
+	}
+	if !ok {
+		Excluded++
+		return Stmt{}, false
+	}
 	return st, true
 }
+
+// Excluded counts candidate segments dropped because their strict parse depends on the separator.
+var Excluded int
 
 // Pools returns the well-formed and the malformed segments (deterministic order).
 func Pools() (good, bad []Stmt) {
@@ -117,7 +148,13 @@ func Pools() (good, bad []Stmt) {
 	for _, b := range Base {
 		add(b, "base")
 		lex := Lexemes(b)
-		for k := 1; k < len(lex); k++ { // the first token (statement keyword) stays
+		// corruptions of the first token: the statement no longer starts with a keyword
+		if len(lex) > 1 {
+			add(strings.Join(lex[1:], " "), "delete@0")
+			add("x "+strings.Join(lex[1:], " "), "replace@0")
+			add("42 "+strings.Join(lex[1:], " "), "replace@0")
+		}
+		for k := 1; k < len(lex); k++ {
 			del := append(append([]string{}, lex[:k]...), lex[k+1:]...)
 			add(strings.Join(del, " "), "delete@"+itoa(k))
 			dup := append(append(append([]string{}, lex[:k+1]...), lex[k]), lex[k+1:]...)
